@@ -83,4 +83,9 @@ CHECKS = {
    text='For every wildcard pattern and via kind on wires with <= 3/4 points, with coordinates and array steps as symbolic integers, z3 proves that resolved coordinates equal the previous point\'s, via arrays expand to all n x m '
         'positions and per-layer listings exist for special and regular nets. Grammar + transformer are compared with the ground truth of a renderer on 40/300 generated DEF files covering all sections (bounded enumeration).',
    note='The text dimension is enumerated, not symbolic (lark lexes with C regexes). Renderer/ground truth in checks/c20.py is trusted.'),
+ 'C14': dict(engine='E2-symx', category='model_checking', design_ref='DESIGN.md §5 C14, §7',
+   technique='real SDF parser on rendered texts (enumerated) + forking symbolic execution of the real iopaths()/interconnects() with every delay literal a symbolic real; z3 validity of every array entry against the ground truth',
+   text='For each rendered SDF file (entry order, CELL grouping incl. repeated blocks per instance and several anonymous blocks, edge qualifiers, one/two value lists, empty and partial triples, escaped names, both branchforks settings) '
+        'the literals become symbolic reals and z3 proves for all values that every entry of both delay arrays equals the ground truth [dataset, line feeding the pin, in-polarity, out-polarity] and all other entries are 0.',
+   note='The text dimension is enumerated (2 circuits x 30 groupings x k seeds). One INTERCONNECT entry is symbolic per exploration (the all-zero test forks on value order); IOPATH values are symbolic in all. Renderer/ground truth trusted.'),
 }
